@@ -223,6 +223,8 @@ class P:
             self.eat(); return ("pvar", self.eat()[1])
         if self.at("_"):
             self.eat(); return ("pwild",)
+        if self.at("true") or self.at("false"):
+            return ("pbool", self.eat()[1])
         if self.peek()[0] == "num" or self.at("-"):
             neg = False
             if self.at("-"): self.eat(); neg = True
@@ -484,6 +486,13 @@ class P:
                 self.eat(); c = self.cond_expr(); b = self.block(); stmts.append(("while", c, b)); continue
             if self.at("for") or self.at("loop") or self.at("unsafe") or self.at("fn") or self.at("use"):
                 raise Unsupported("statement `%s`" % self.peek()[1])
+            if self.at("if") or self.at("match"):
+                # a block-like expression at the start of a statement ends at its closing brace
+                e = self.if_e() if self.at("if") else self.match_e()
+                if self.at("}"):
+                    tail = e; break
+                if self.at(";"): self.eat()
+                stmts.append(("expr", e)); continue
             e = self.expr()
             if self.peek()[0] == "op" and self.peek()[1] in ("=", "+=", "-=", "*=", "/=", "%=", "<<=", ">>=", "&=", "|=", "^="):
                 op = self.eat()[1]; r = self.expr(); self.eat(";")
@@ -1199,13 +1208,18 @@ class Fn:
             return pl + pr, "(wrap %s (%s %s %s))" % (tyname(t), atom(l), o, atom(r)), t
         if m == "signum" and not args:
             return pl, "(Z.sgn %s)" % atom(l), tl
-        if m == "map" and len(args) == 1 and isinstance(tlr, tuple) and tlr[0] == "opt" and args[0][0] == "closure":
+        if m == "map" and len(args) == 1 and isinstance(tlr, tuple) and tlr[0] == "opt" and args[0][0] in ("closure", "path"):
             cl = args[0]
+            if cl[0] == "path":      # .map(f)  ==  .map(|x| f(x))
+                cl = ("closure", [("pvar", "x_")], ("call", cl, [("path", ["x_"])]))
             if len(cl[1]) != 1: raise Unsupported("closure arity")
             env2 = dict(env)
             cp = self.pattern(cl[1][0], tlr[1], env2)
             pb, b, tb = self.e(cl[2], env2, None)
-            if pb: raise Unsupported("effectful closure")
+            if pb:
+                r = self.fresh()
+                code = "match %s with\n| None => Val None\n| Some %s => %s\nend" % (atom(l), cp, self.monadic(pb, "(Some %s)" % atom(b)))
+                return pl + [("bind", r, code)], r, ("opt", tb)
             return pl, "(option_map (fun %s => %s) %s)" % (cp if not cp.startswith("(") else "'" + cp, b, atom(l)), ("opt", tb)
         if m == "unsigned_abs" and not args:
             u = {"i8": "u8", "i16": "u16", "i32": "u32", "i64": "u64", "i128": "u128", "isize": "usize"}.get(tlr)
@@ -1312,6 +1326,8 @@ class Fn:
             env[pat[1]] = ty; return self.v(pat[1])
         if k == "pwild":
             return "_"
+        if k == "pbool":
+            return pat[1]
         if k == "por":
             before = set(env)
             ps = [self.pattern(q, ty, env) for q in pat[1]]
